@@ -260,6 +260,8 @@ def monitor_c06(ctx, scn, tv):
                 return
             if failures >= k or "pick" not in ev:
                 continue
+            if step.get("load_caps"):
+                continue        # capacity is scripted: whether a slot was free is not for this monitor to say
             # no-idle: is there a command that starts later but was startable now?
             free_global = (len(running) < j) if js is None else (ev.get("free", 0) > 0 or ev.get("implicit_free"))
             if not free_global:
@@ -312,6 +314,23 @@ def monitor_c06(ctx, scn, tv):
     if "stuck" in (res.get("err") or ""):
         ctx.violation("C06/stuck", "scenario %s: %s" % (scn["id"], res.get("err")), {"scenario": scn, "choices": tv.trace.get("_choices")})
         return
+    # "always terminates, either having run everything needed or with an error": exit 0 means nothing needed is left
+    if res.get("exit") == 0 and res.get("stage") == "build" and not step.get("faults") and step.get("interrupt_at", -1) in (-1, None) \
+            and not step.get("fail_start") and not step.get("disk_faults"):
+        try:
+            exp, _ = model.expected_runs(g, tv.targets, {p: v for p, v in tv.world_before.items()}, tv.recs_before, tv.clean)
+        except model.Invalid:
+            exp = None
+        if exp is not None:
+            started_ids = {tv.sid_of[o] for o in start_idx if o in tv.sid_of}
+            missing = exp - started_ids
+            missing -= {sid for sid in missing if any(g.restat(g.by_id[a]) for a in tv.ancestors(sid))}
+            ctx.count("c06_exit0_completeness_checks")
+            if missing:
+                ctx.violation("C06/exit-0-with-work-left%s" % ("/load-limited" if step.get("load_caps") else ""),
+                              "scenario %s choices=%s: ninja exit 0 but %s never started" % (scn["id"], tv.trace.get("_choices"), sorted(missing)),
+                              {"scenario": scn, "choices": tv.trace.get("_choices")})
+                return
     if res.get("waits", 0) > 2 * ncmds + 10:
         ctx.violation("C06/too-many-waits", "scenario %s: %d waits for %d commands" % (scn["id"], res.get("waits"), ncmds), {"scenario": scn})
     tk = res.get("tokens")
